@@ -152,6 +152,11 @@ fn build_ds(ds: &Value) -> InMemDicomObject {
                 PrimitiveValue::U16((0..n).map(|i| ((a * i + b) % 65536) as u16).collect()).into()
             }
             "u8c" => PrimitiveValue::U8(vals.iter().map(|x| j_usize(x) as u8).collect()).into(),
+            "b64" => {
+                use base64::Engine;
+                let bytes = base64::engine::general_purpose::STANDARD.decode(j_str(&vals[0])).expect("base64 text");
+                PrimitiveValue::U8(bytes.into_iter().collect()).into()
+            }
             "items" => DValue::Sequence(DataSetSequence::from(vals.iter().map(build_ds).collect::<Vec<_>>())),
             other => panic!("unknown rep {other}"),
         };
@@ -177,8 +182,11 @@ fn project_ds(obj: &InMemDicomObject) -> Value {
                 PrimitiveValue::Empty => ("empty", vec![]),
                 PrimitiveValue::Strs(s) => ("strs", s.iter().map(|x| Value::from(x.as_str())).collect()),
                 PrimitiveValue::Str(s) => ("str", vec![Value::from(s.as_str())]),
-                // long byte values travel as plain integers
-                PrimitiveValue::U8(v) if v.len() > 256 => ("u8c", v.iter().map(|x| Value::from(*x)).collect()),
+                // long byte values travel as their base64 text (rep "b64" of DicomJson.tla)
+                PrimitiveValue::U8(v) if v.len() > 256 => {
+                    use base64::Engine;
+                    ("b64", vec![Value::from(base64::engine::general_purpose::STANDARD.encode(&v[..]))])
+                }
                 PrimitiveValue::U8(v) => ("u8", int_vals(v)),
                 PrimitiveValue::U16(v) => ("u16", int_vals(v)),
                 PrimitiveValue::I16(v) => ("i16", int_vals(v)),
